@@ -171,3 +171,15 @@ claim("C11",
       "different taxa, with no label present twice.",
       TB, "symbolic-choice driven (CrossHair+z3) execution of container operations with a namespace-closure and label-unification oracle",
       "DESIGN.md 3/C11")
+
+claim("C05",
+      "Bounded symbolic execution of SplitDistribution / TreeArray / the summarizer on collections of real trees: every tree is a symbolic "
+      "choice from a pool of labelled topologies on four taxa (binary, partly resolved, star), rooting symbolic, tree weights symbolic "
+      "integers (frequencies are then quotients of symbolic sums, compared cross-multiplied), thresholds a symbolic choice of the standard "
+      "cut-offs. Oracle from label sets: frequency of every grouping and none for absent ones; consensus above one half = exactly the "
+      "groupings reaching the threshold, below = pairwise compatible, none under the threshold, maximal in frequency order, spanning every "
+      "taxon once with the inputs' rooting; collapsing removes exactly the weak internal edges and keeps every root-to-tip distance for all "
+      "symbolic lengths; node support / label / percentages and edge-length mean, median, range, sd on summarised trees, also after the "
+      "collection has grown; maximum-credibility trees attain the maximum of the reported scores.",
+      TB + " Summaries that call sqrt/log run on concrete values per path.", "symbolic execution (CrossHair+z3) of split counting, consensus, collapsing and summarising with symbolic tree choices and symbolic integer weights",
+      "DESIGN.md 3/C05")
